@@ -32,7 +32,16 @@
      the probes in the catching task show Some [1]) and C08_guard_escapes_run (_GUARD_BATCH: the RuntimeError
      escapes with a batch scheduled; the next computation flushes only its own batch).
 
+   * C08_paused_task_completes_without_pause (proofs/MachineC08P.v): completing a task whose contexts are already
+     paused (_contexts_active = False, which _pause_contexts establishes BEFORE it calls any pause()) emits the task's
+     EvDone and nothing else - closing its generator runs every open block's __exit__, and none of them calls pause()
+     again.  So a context whose pause() fails PERSISTENTLY (on every call from the k-th on) is asked exactly once and
+     the model's one-shot fault `PauseRaises k e` stands for it; on the implementation the harness's persistent
+     contexts ("sticky") make a second call fail visibly (escaping generator.close()), the monitors judge the rest.
+
    NOT proved:
+   * anything about a context whose pause() raises when a with block's __exit__ calls it (model: pause_plain never
+     raises; `Exit` has no failing continuation);
    * anything about runs in which FutureIsAlreadyComputed (E_ALREADY, raised by _queue_exit in
      MResume / MRun) unwinds: MUnwind pops _continue_with_task frames without restoring active_task and
      leaves the task stack as it is, the invariant says nothing there;
@@ -40,7 +49,7 @@
    * "the next computation behaves as on a fresh scheduler" as an equality of traces between the second
      computation of a history and the same computation on st0 (here: the scheduler-owned fields tasks / sb /
      active are those of st0; heap, batch registry, scoped values and the id counter are user state). *)
-From Asynq Require Import Machine proofs.MachineC08 proofs.MachineC08U.
+From Asynq Require Import Machine proofs.MachineC08 proofs.MachineC08U proofs.MachineC08P.
 
 Theorem C08_active_is_running : forall P h s n t p,
   tasks s = [] -> no_unwind P n (start h s) ->
@@ -169,3 +178,18 @@ Theorem C08_guard_escapes_run :
     [EvSched 0 0 None; EvFlush 1 0 [[7]]; EvSched 0 0 None].
 Proof. exact guard_escapes_run. Qed.
 Print Assumptions C08_guard_escapes_run.
+
+Theorem C08_paused_task_completes_without_pause : forall t o s tk,
+  get_task t s = Some tk -> tk_cact tk = false ->
+  trace (complete_task t o s) = EvDone t o :: trace s.
+Proof. exact complete_paused_task. Qed.
+Print Assumptions C08_paused_task_completes_without_pause.
+
+Theorem C08_paused_task_hypotheses_satisfiable :
+  let c := CAsync 1%Z (PauseRaises 1 7%Z) in
+  let tk := mkTask (Some (fun _ => Ret VNone)) YNone [] [c] false false 0%Z 0%Z in
+  let s := put [0%Z] (mkFut None (KTask tk)) (st0 (mkP [] 1000%Z false [])) in
+  get_task [0%Z] s = Some tk /\ tk_cact tk = false /\
+  trace (complete_task [0%Z] (Err 7%Z) s) = [EvDone [0%Z] (Err 7%Z)].
+Proof. exact complete_paused_task_example. Qed.
+Print Assumptions C08_paused_task_hypotheses_satisfiable.
